@@ -6,6 +6,7 @@ import logging
 
 import namedlist
 import asyncio
+import urllib.parse
 
 from typing import cast, Tuple
 
@@ -167,7 +168,15 @@ class WebProcessorSession(BaseProcessorSession):
                 url_record.url_info.scheme == 'http':
             return
 
-        request.fields['Referer'] = url_record.parent_url
+        # The user info of the referring URL is not to be disclosed either.
+        referrer = url_record.parent_url
+        parts = urllib.parse.urlsplit(referrer)
+
+        if '@' in parts.netloc:
+            referrer = urllib.parse.urlunsplit(
+                parts._replace(netloc=parts.netloc.rpartition('@')[2]))
+
+        request.fields['Referer'] = referrer
 
     @asyncio.coroutine
     def process(self):
